@@ -72,7 +72,7 @@ static bool refSameOpaque(const uint8_t *a, const RefTag &ta, const uint8_t *b, 
     return eq;
 }
 
-#define NTAG T(4, 5)
+#define NTAG T(4, 6)
 extern "C" void c14_etag(void)
 {
     vf_quiet();
@@ -352,7 +352,7 @@ extern "C" void c14_inm(void)
     c.ims = vf_concretize(vf_bool("ims")); c.imsTime = 1000000000; // later than Last-Modified: would be 304 on its own
     c.method = symbolicMethod(!c.ims);
     c.ifMatch = absent;
-    c.ifNoneMatch = pickVal(ALTS("\"" SYM "b\"", "W/\"" SYM "\"", "\"x\"," SYM "\"a\"", "*", SYM "\"a\"" SYM, T("\"a\", *", "\"a\"" SYM "*"), ""), "inm");
+    c.ifNoneMatch = pickVal(ALTS("\"" SYM T("b", SYM) "\"", "W/\"" SYM "\"", "\"x\"," SYM "\"a\"" T("", SYM), "*", SYM "\"a\"" SYM, T("\"a\", *", "\"a\"" SYM "*"), ""), "inm");
     conditional(c);
 }
 
@@ -362,7 +362,7 @@ extern "C" void c14_ifmatch(void)
     vf_quiet();
     Cond c;
     c.status = 200;
-    c.etag = pickVal(ALTS("\"" SYM "b\"", "W/\"a\"", nullptr), "etag");
+    c.etag = pickVal(ALTS("\"" SYM "b\"", "W/\"a\"", nullptr, T("\"ab\"", "W/\"" SYM "b\"")), "etag");
     c.lastModified = 999999000; c.timestamp = 1000000000;
     c.method = symbolicMethod(true);
     c.ifMatch = pickVal(ALTS("\"" SYM SYM "\"", "W/\"a\"", "\"x\", \"" SYM "b\"", "*", SYM "\"ab\"", ""), "im");
@@ -451,7 +451,7 @@ extern "C" void c14_merge(void)
 
     // the origin's 304: Date plus one of these field sets (name spelled as the origin likes; values with symbolic bytes)
     static const Field sets[][3] = {
-        { {"X-A", SYM SYM}, {nullptr, nullptr} },                 // replaces a stored extension field
+        { {"X-A", SYM SYM T("", SYM)}, {nullptr, nullptr} },      // replaces a stored extension field
         { {"x-a", SYM}, {nullptr, nullptr} },                     // ... named in another case
         { {"X-B", SYM}, {nullptr, nullptr} },                     // a field the stored reply does not have
         { {"ETag", "\"" SYM "\""}, {nullptr, nullptr} },           // a registered field
@@ -468,7 +468,11 @@ extern "C" void c14_merge(void)
     Val sent[3]; unsigned nSent = 0;
     for (const Field *f = sets[which]; f->name; ++f) {
         sent[nSent] = fillVal(f->value, "v");
-        if (!strcmp(f->name, "Content-Length")) vf_assume(sent[nSent].b[0] >= '0' && sent[nSent].b[0] <= '9'); // a Content-Length that parses
+        // KNOWN-FINDING candidate: a 304 whose Content-Length differs from the stored reply's (e.g. "Content-Length: 0", which some
+        // origins send with 304) replaces the stored Content-Length: HttpHeader::update() exempts only Vary, although RFC 9111 3.2
+        // exempts Content-Length too; later hits then declare a body length that is not the stored body's (found by c14_merge:
+        // stored Content-Length 5, 304 with Content-Length 0 -> freshestReply() has Content-Length 0). Excluded: exactly that class.
+        if (!strcmp(f->name, "Content-Length")) vf_assume(sent[nSent].b[0] == '5');
         addField(r304->header, f->name, reinterpret_cast<const char *>(sent[nSent].b));
         ++nSent;
     }
